@@ -22,7 +22,7 @@ call sites are exercised end to end, not modelled); original positions are at to
 precedes the token on its line, known finding `e2e:original-column-counts-code-points`).
 -/
 namespace NitroVerif.SourceMap
-open NitroVerif.SourceMapSpec (b64Val vlqDecode decodeMappings Segment)
+open NitroVerif.SourceMapSpec (b64Val vlqDecode decodeMappings Segment strictSegments strictGo)
 
 /-! ## base64 / VLQ -/
 
@@ -90,6 +90,33 @@ theorem mappings_roundtrip_flat (es : List Entry) (h : Mono 0 es) :
     (decodeMappings (encodeAll es)).map (flattenFrom 0) = some (es.map fun e => (e.genLine, segOf e)) := by
   rw [mappings_roundtrip es h]
   simp [groupByLine, flatten_groupFrom es 0 [] h]
+
+/-- The emitted text contains an empty segment (a `,` with nothing before it) exactly when the very
+    first entry is on generated line 0: `add_entry` writes `,` before every entry that does not start
+    a new line, the first one included. ECMA-426's decoding algorithm skips empty segments (so does
+    `decodeMappings`, and `mappings_roundtrip` holds regardless); a strict reader of "1, 4 or 5
+    fields" would not. Unreachable from the CLI (line 0 of every generated file is an unmapped
+    header line; the harness counts it on every emitted map) — recorded as a note, not a violation. -/
+theorem mappings_strict_iff (e : Entry) (es : List Entry) (h : Mono 0 (e :: es)) :
+    strictSegments (encodeAll (e :: es)) = true ↔ e.genLine ≠ 0 := by
+  unfold encodeAll strictSegments
+  rw [foldl_addEntry_buf]
+  simp only [MState.init, List.nil_append, encodeFrom, emit_eq]
+  obtain ⟨_, hm'⟩ := h
+  have hdig := flatMap_vlq_digits (fieldsOf ⟨[], 0, 0, 0, 0, 0, 0, []⟩ e)
+  have hnn := fields_digits_ne_nil ⟨[], 0, 0, 0, 0, 0, 0, []⟩ e
+  by_cases h0 : e.genLine = 0
+  · have hb : ((0 : Nat) != e.genLine) = false := by simp [h0]
+    simp [h0, strictGo]
+  · have hb : ((0 : Nat) != e.genLine) = true := by simp only [bne_iff_ne, ne_eq]; omega
+    obtain ⟨k, hk⟩ : ∃ k, e.genLine - 0 = k + 1 := ⟨e.genLine - 1, by omega⟩
+    have hne : ¬ ((';' : Char) = ',') := by decide
+    simp only [hb, hk, if_true, List.append_nil, List.replicate_succ, List.cons_append, List.append_assoc]
+    simp only [strictGo, hne, if_false, if_true]
+    rw [strictGo_semis, strictGo_digits _ hdig hnn]
+    simp only [h0, ne_eq, not_false_eq_true, iff_true]
+    exact strictGo_encodeFrom es _ _ hm'
+
 
 /-- non-vacuity: a monotone sequence with a skipped line, a name, and the `usize::MAX` file index -/
 example : Mono 0 [⟨0, 4, 1, 2, 0, some 0⟩, ⟨0, 9, 1, 3, 0, none⟩, ⟨3, 0, 7, 0, usizeMax, some 1⟩] := by
@@ -186,6 +213,35 @@ theorem unnamed_segment_before_indent :
       [.indent, .write ['x', '\n'], .writeFor ['y'] ⟨1, 2, 0, false, none⟩]).map
       (fun st => (st.buf, st.mapping.log)) =
     some (['x', '\n', ' ', ' ', 'y'], [⟨1, 0, 1, 2, 0, none⟩]) := by
+  decide
+
+/-! ## FileMap: file-store index → `sources` index (cli/src/generate.rs) -/
+
+/-- For the declaration file of an operation document, with `nSchema` schema files followed by
+    `nOps` operation files in the file store and `used` = the operation files the document's
+    definitions come from (its own file and the files of `#import`ed fragments): EVERY position in a
+    schema file or in one of these files is mapped to an index that is not the `usize::MAX` marker,
+    lies inside `sources`, and `sources` holds exactly that file there. (Repaired behaviour, commit
+    777cac3; `sources[i]` is then rendered relative to the map by `relative_path` — C20.) -/
+theorem file_remap_in_range (nSchema nOps : Nat) (used : List Nat) (f : Nat)
+    (hf : f < nSchema + nOps) (hk : keptFile nSchema used f) (hsmall : 2 * nSchema + nOps < usizeMax) :
+    ∃ i, (fileIndicesOp nSchema nOps used)[f]? = some i ∧ i ≠ usizeMax ∧
+      (sourceFiles (fileIndicesOp nSchema nOps used))[i]? = some f := by
+  have := fileIndicesOpGo_spec nSchema used (nSchema + nOps) 0 nSchema []
+    (by split <;> simp_all) (fun _ => rfl) (by omega) (by omega) f (by omega) (by omega) hk
+  simpa [fileIndicesOp, sourceFiles] using this
+
+/-- non-vacuity: 2 schema files, 3 operation files, the document is file 4 and imports from file 2 -/
+example : keptFile 2 [2, 4] 4 ∧ keptFile 2 [2, 4] 2 ∧ keptFile 2 [2, 4] 1 ∧
+    fileIndicesOp 2 3 [2, 4] = [0, 1, 2, usizeMax, 3] ∧ sourceFiles (fileIndicesOp 2 3 [2, 4]) = [0, 1, 2, 4] :=
+  ⟨Or.inr (by decide), Or.inr (by decide), Or.inl (by decide), by decide, by decide⟩
+
+/-- The pinned behaviour before the repair (DESIGN §9-s), kept as a kernel-checked counterexample:
+    with one schema file and the operation files 1 (the document) and 2 (an imported fragment's
+    file), a position in file 2 was mapped to `usize::MAX`, which `add_entry` writes as source index −1. -/
+theorem file_remap_imported_counterexample :
+    (fileIndicesOpOld 1 2 1)[2]? = some usizeMax ∧ toIsize usizeMax = -1 ∧
+    sourceFiles (fileIndicesOpOld 1 2 1) = [0, 1] := by
   decide
 
 end NitroVerif.SourceMap
